@@ -11,8 +11,10 @@ RULE = (
     "E1 exhaustive: base objects (terms over T({x,y},{-1,0,1,2},{-1,0,1}) incl. 0.0 / -0.0 / 1-ulp constants; all lists "
     "of <=2 panel terms; contracts over a panel of interfaces and contents; compound contracts) and EVERY single-field "
     "edit of each base object (one coefficient changed/removed/added, constant changed incl. -0.0 and 1 ulp, term "
-    "order, term added/removed, input or output list permuted / extended / replaced, assumptions or guarantees "
-    "replaced), plus copy() and machine-dict round trip of each. All ordered pairs inside a family are compared: "
+    "order, term added/removed, the same term built with another insertion order of its variables, input or output list "
+    "permuted / extended / replaced, the boundary variable moved between the input and the output list, assumptions or "
+    "guarantees replaced), plus copy(), machine-dict round trip, parsing the same constraint with its terms in another "
+    "order, and rename-there-and-back of each. All ordered pairs inside a family are compared: "
     "== must equal field-wise reference equality, must be symmetric, a == b must imply hash(a) == hash(b); all "
     "triples of each family are checked for transitivity; copies must be == and hash-equal. Non-trivial = a pair "
     "of distinct objects of one family (a base object and one of its edits, or two edits)."
@@ -38,6 +40,8 @@ def term_edits(t):
         d.pop(n)
         if d:
             out.append([d, c])
+    if len(co) >= 2:
+        out.append([dict(reversed(list(co.items()))), c])  # equal term built with another insertion order
     if "w" not in co:
         out.append([{**co, "w": 1}, c])
     out.append([dict(co), c + 1])
@@ -56,6 +60,9 @@ def list_edits(L):
         out.append(L[:i] + L[i + 1:])
     if len(L) >= 2:
         out.append(list(reversed(L)))
+    for i in range(len(L)):
+        if len(L[i][0]) >= 2:
+            out.append(L[:i] + [[dict(reversed(list(L[i][0].items()))), L[i][1]]] + L[i + 1:])
     out.append(L + [[{"x": 1, "y": 3}, 5]])
     out.append([[{"x": 1, "y": 3}, 5]] + L)
     return out
@@ -68,6 +75,12 @@ def contract_edits(c):
         out.append({**c, "i": list(reversed(i))})
     if len(o) >= 2:
         out.append({**c, "o": list(reversed(o))})
+    # move the boundary variable between the input list and the output list (same concatenation of both lists)
+    amen = grids.lvars(c["a"])
+    if i and i[-1] not in amen:
+        out.append({**c, "i": i[:-1], "o": [i[-1]] + o})
+    if o:
+        out.append({**c, "i": i + [o[0]], "o": o[1:]})
     out.append({**c, "i": i + ["k"]})
     out.append({**c, "o": o + ["k"]})
     if o:
@@ -199,6 +212,26 @@ def run_case(case):
         js = contract_edits(case["base"])
         objs = [contract(c, simplify=False) for c in js]
         out = _pairs(objs, [ref_contract(c) for c in js], fam)
+        # equal objects reached along different construction paths must be == and hash-equal
+        from pacti.iocontract import Var as _V
+        b0 = objs[0]
+        paths = []
+        if b0.inputvars:
+            v = b0.inputvars[0]
+            paths.append(("rename there and back", lambda c: c.rename_variable(v, _V("tmp_")).rename_variable(_V("tmp_"), v)))
+        for name, f in paths:
+            try:
+                c2 = f(b0)
+                if [x.name for x in c2.inputvars] == [x.name for x in b0.inputvars] and ref_list([[{k.name: v for k, v in t.variables.items()}, t.constant] for t in c2.g.terms]) == ref_list([[{k.name: v for k, v in t.variables.items()}, t.constant] for t in b0.g.terms]) \
+                        and ref_list([[{k.name: v for k, v in t.variables.items()}, t.constant] for t in c2.a.terms]) == ref_list([[{k.name: v for k, v in t.variables.items()}, t.constant] for t in b0.a.terms]):
+                    viol = None
+                    if not (c2 == b0):
+                        viol = {"sub": [fam, name], "what": "field-wise identical contract obtained by %s is not ==" % name}
+                    elif hash(c2) != hash(b0):
+                        viol = {"sub": [fam, name, "hash"], "what": "contract obtained by %s is == but hashes differently" % name}
+                    out.append(("path-eq", True, None, viol, {"hash-eq": 1}))
+            except ValueError:
+                pass
         base = contract(case["base"])  # default simplification
         out += _copies(base, [("copy()", lambda c: c.copy()),
                               ("dict round trip", lambda c: PolyhedralIoContract.from_dict(c.to_machine_dict())),
